@@ -367,6 +367,22 @@ func graphs(quick bool) []trav.GraphSpec {
 	shared := ref.List(ref.Map(ref.E("a", ref.List(leaf))), ref.Map(ref.E("a", ref.List(leaf))), ref.Map(ref.E("a", ref.List(leaf))), ref.List(leaf))
 	// repeated links at several levels: [X, X, X, Y] with X = {a: Y}, Y = [7]
 	out = append(out, trav.GraphSpec{Tree: shared, Cuts: []int{1, 2, 4, 5, 7, 8, 10}}, trav.GraphSpec{Tree: shared, Cuts: []int{1, 4, 7}}, trav.GraphSpec{Tree: shared, Cuts: []int{2, 5, 8, 10}})
+	// paths whose string forms are prefixes of one another without being path prefixes: list indices of
+	// two digits (1 | 10, 11) and map keys that begin with an earlier key (a | ab | abc); some entries
+	// are blocks of their own so that "not loaded before the start path" has something to say
+	wide := ref.List()
+	for i := 0; i < 12; i++ {
+		if i == 1 || i == 10 || i == 11 {
+			wide.L = append(wide.L, ref.Map(ref.E("a", leaf)))
+		} else {
+			wide.L = append(wide.L, leaf)
+		}
+	}
+	// preorder: 0 root; elements: 0→1, 1→2 (map; its leaf 3), 2→4, … 9→11, 10→12 (leaf 13), 11→14 (leaf 15)
+	out = append(out, trav.GraphSpec{Tree: wide}, trav.GraphSpec{Tree: wide, Cuts: []int{2, 12, 14}})
+	pre := ref.Map(ref.E("a", ref.List(leaf)), ref.E("ab", ref.List(leaf, leaf)), ref.E("abc", ref.Map(ref.E("a", leaf))), ref.E("b", leaf))
+	// preorder: 0 root; a→1 (leaf 2); ab→3 (4, 5); abc→6 (7); b→8
+	out = append(out, trav.GraphSpec{Tree: pre}, trav.GraphSpec{Tree: pre, Cuts: []int{1, 3, 6}})
 	return out
 }
 
